@@ -870,25 +870,46 @@ func main() {
 	f.inventory(sasl, "sasl", "Server", "Client", "Request", "Response")
 	f.inventory(m, "main", "store", "Store", "webSessionFactory", "HooksCaller", "zxcvbnPolicy")
 
-	if len(f.missing) > 0 {
-		for _, m := range f.missing {
-			fmt.Fprintf(os.Stderr, "facts: fact not found: %s\n", m)
-		}
-		os.Exit(2)
-	}
-
+	// Extracted.v is written in any case - with the facts that were found - so that a failed extraction
+	// never leaves the facts of ANOTHER tree behind: an obligation about a missing fact then fails on the
+	// missing name.
 	var b strings.Builder
 	b.WriteString("(* Extracted.v - GENERATED by tools/facts from the working tree of the repository\n   under verification on every check run.  Do not edit. *)\n")
 	b.WriteString("From Coq Require Import NArith String.\n\n")
 	for _, l := range f.lines {
 		b.WriteString(l + "\n")
 	}
-	newc := b.String()
-	if old, err := os.ReadFile(out); err == nil && string(old) == newc {
-		return // unchanged: keep the timestamp so make does not rebuild
+	for _, m := range f.missing {
+		b.WriteString("(* NOT FOUND in this tree: " + san(m) + " *)\n")
 	}
-	if err := os.WriteFile(out, []byte(newc), 0644); err != nil {
-		fmt.Fprintf(os.Stderr, "facts: %v\n", err)
+	if len(f.missing) > 0 {
+		// keep the models buildable for the failing-input search: a fact that was not found keeps the value
+		// it had in the file being replaced (marked STALE); every fact that WAS found is fresh
+		have := map[string]bool{}
+		for _, l := range f.lines {
+			if fs := strings.Fields(l); len(fs) > 1 {
+				have[fs[1]] = true
+			}
+		}
+		if old, err := os.ReadFile(out); err == nil {
+			for _, l := range strings.Split(string(old), "\n") {
+				if fs := strings.Fields(l); len(fs) > 1 && fs[0] == "Definition" && !have[fs[1]] {
+					b.WriteString(strings.Replace(l, "(*", "(* STALE (not found in this tree) ", 1) + "\n")
+				}
+			}
+		}
+	}
+	newc := b.String()
+	if old, err := os.ReadFile(out); err != nil || string(old) != newc { // unchanged: keep the timestamp so make does not rebuild
+		if err := os.WriteFile(out, []byte(newc), 0644); err != nil {
+			fmt.Fprintf(os.Stderr, "facts: %v\n", err)
+			os.Exit(2)
+		}
+	}
+	if len(f.missing) > 0 {
+		for _, m := range f.missing {
+			fmt.Fprintf(os.Stderr, "facts: fact not found: %s\n", m)
+		}
 		os.Exit(2)
 	}
 }
